@@ -136,7 +136,17 @@ func (e *Enc) callCommon(c *ssa.CallCommon, site ssa.Instruction, st *State, def
 	}
 	if b, ok := c.Value.(*ssa.Builtin); ok {
 		if !deferred && e.ctr != nil && len(e.ctr.AssertAts) > 0 {
-			e.fireAssertAt("call", b.Name(), pos, st, map[string]*Val{}, "true")
+			// operands of the builtin are arg0, arg1, ... (append(s, x): arg1 is the slice
+			// of appended elements, arg1[0] the first one)
+			ba := map[string]*Val{}
+			for i, a := range c.Args {
+				if v, ok := e.vals[a]; ok {
+					ba[fmt.Sprintf("arg%d", i)] = v
+				} else if _, isConst := a.(*ssa.Const); isConst {
+					ba[fmt.Sprintf("arg%d", i)] = e.val(a)
+				}
+			}
+			e.fireAssertAt("call", b.Name(), pos, st, ba, "true")
 		}
 		return e.builtinCall(b, c, site, st)
 	}
